@@ -676,6 +676,9 @@ class Interp:
                 return Namespace("builtins." + e.id)
             if e.id in self.model.classes:
                 return ClassRef(e.id)
+            for (fl, nm), fdef in self.model.functions.items():
+                if nm == e.id and fl.startswith("PyXAB/partition/"):
+                    return BoundMethod(None, fdef, None)
             if e.id in ("True", "False", "None"):
                 return {"True": True, "False": False, "None": None}[e.id]
             raise PathCrash("NameError: name %r is not defined" % e.id)
@@ -1057,6 +1060,11 @@ class Interp:
             for v in self.as_iter(args[0]):
                 tot = self.arith(ast.Add(), tot, v)
             return tot
+        if n == "divmod":
+            a, b = args
+            if isinstance(a, Num) or isinstance(b, Num):
+                raise Unsupported("divmod of symbolic numbers")
+            return divmod(a, b)
         if n == "print":
             return None
         if n == "round":
@@ -1215,7 +1223,7 @@ class SymCond:
         return None
 
 
-_BUILTINS = {"round", "dict", "set", "len", "range", "list", "tuple", "enumerate", "zip", "reversed", "int", "float", "bool",
+_BUILTINS = {"divmod", "round", "dict", "set", "len", "range", "list", "tuple", "enumerate", "zip", "reversed", "int", "float", "bool",
              "isinstance", "abs", "min", "max", "sum", "print", "super"}
 
 
